@@ -13,6 +13,8 @@ fn schema() -> Schema {
         .field(Field::new("meow", TypeRef::named_nn(TypeRef::INT), |_| FieldFuture::new(async { Ok(Some(GqlValue::from(9))) })));
     let animal = Interface::new("Animal").field(InterfaceField::new("name", TypeRef::named_nn(TypeRef::STRING)));
     let pet = Union::new("Pet").possible_type("Dog").possible_type("Cat");
+    let canine = Union::new("Canine").possible_type("Dog");
+    let natural = Scalar::new("Natural").validator(|v| matches!(v, GqlValue::Number(n) if n.as_i64().map(|x| x >= 0).unwrap_or(false)));
     let color = Enum::new("Color").item("RED").item("GREEN");
     let q = Object::new("Query")
         .field(Field::new("num", TypeRef::named_nn(TypeRef::INT), |_| FieldFuture::new(async { Ok(Some(GqlValue::from(7))) })))
@@ -22,14 +24,22 @@ fn schema() -> Schema {
         .field(Field::new("pet", TypeRef::named_nn("Pet"), |_| FieldFuture::new(async { Ok(Some(FieldValue::owned_any(0u8).with_type("Dog"))) })))
         .field(Field::new("animal", TypeRef::named_nn("Animal"), |_| FieldFuture::new(async { Ok(Some(FieldValue::owned_any(0u8).with_type("Cat"))) })))
         .field(Field::new("pets", TypeRef::named_nn_list_nn("Pet"), |_| FieldFuture::new(async { Ok(Some(FieldValue::list(vec![FieldValue::owned_any(0u8).with_type("Dog"), FieldValue::owned_any(0u8).with_type("Cat")]))) })))
+        .field(Field::new("naturals", TypeRef::named_nn_list_nn("Natural"), |_| FieldFuture::new(async { Ok(Some(GqlValue::from(vec![1, 2]))) })))
+        .field(Field::new("badNaturals", TypeRef::named_nn_list_nn("Natural"), |_| FieldFuture::new(async { Ok(Some(GqlValue::from(vec![1, -2]))) })))
+        .field(Field::new("badNested", TypeRef::named_nn_list("Natural"), |_| FieldFuture::new(async { Ok(Some(GqlValue::List(vec![GqlValue::from(1), GqlValue::List(vec![GqlValue::from(2)])]))) })))
+        .field(Field::new("badColor", TypeRef::named_nn_list_nn("Color"), |_| FieldFuture::new(async { Ok(Some(GqlValue::List(vec![GqlValue::from("GREEN"), GqlValue::from("PURPLE")]))) })))
         .field(Field::new("nums", TypeRef::named_nn_list(TypeRef::INT), |_| FieldFuture::new(async { Ok(Some(GqlValue::from(vec![1, 2]))) })));
-    Schema::build("Query", None, None).register(dog).register(cat).register(animal).register(pet).register(color).register(q).finish().unwrap()
+    Schema::build("Query", None, None).register(dog).register(cat).register(animal).register(pet).register(canine).register(natural).register(color).register(q).finish().unwrap()
 }
 
 /// args {"query": "...", "data": "<expected json text>"}
 pub fn exec(args: &Value) -> Outcome {
     let resp = schema().execute(args["query"].as_str().unwrap()).now_or_never().unwrap();
     let data = serde_json::to_string(&resp.data).unwrap();
+    if args["expect_error"] == true {
+        // leaf values are CHECKED against their declared type: an invalid value is a field error, never response data
+        return Outcome { holds: !resp.errors.is_empty(), observed: format!("data {} errors {:?}", data, resp.errors.iter().map(|e| e.message.clone()).collect::<Vec<_>>()), expected: "a field error (the value is invalid for the declared type)".into() };
+    }
     let exp = args["data"].as_str().unwrap();
     Outcome { holds: resp.errors.is_empty() && data == exp, observed: format!("data {} errors {:?}", data, resp.errors.iter().map(|e| e.message.clone()).collect::<Vec<_>>()), expected: format!("data {}", exp) }
 }
@@ -48,8 +58,15 @@ pub fn inputs(_seed: u64, open: &[String]) -> impl Iterator<Item = Value> {
         json!({"query": "{ pets { ...F } } fragment F on Dog { bark }", "data": "{\"pets\":[{\"bark\":3},{}]}"}),
         json!({"query": "{ num @skip(if: true) dog { name @include(if: false) bark } }", "data": "{\"dog\":{\"bark\":3}}"}),
         json!({"query": "{ ... { num } ... on Query { opt } }", "data": "{\"num\":7,\"opt\":null}"}),
+        // a union condition the runtime object is NOT a member of never applies
+        json!({"query": "{ animal { name ... on Canine { __typename } } }", "data": "{\"animal\":{\"name\":\"tom\"}}"}),
+        json!({"query": "{ naturals }", "data": "{\"naturals\":[1,2]}"}),
+        json!({"query": "{ badNaturals }", "expect_error": true}),
+        json!({"query": "{ badNested }", "expect_error": true}),
+        json!({"query": "{ badColor }", "expect_error": true}),
     ];
     if !has("C02-union-type-condition") {
+        v.push(json!({"query": "{ pets { ... on Canine { __typename } ... on Cat { meow } } }", "data": "{\"pets\":[{\"__typename\":\"Dog\"},{\"meow\":9}]}"}));
         v.push(json!({"query": "{ pet { ... on Pet { ... on Dog { bark } } } }", "data": "{\"pet\":{\"bark\":3}}"}));
         v.push(json!({"query": "{ pets { ...F } } fragment F on Pet { ... on Dog { bark } ... on Cat { meow } }", "data": "{\"pets\":[{\"bark\":3},{\"meow\":9}]}"}));
     }
